@@ -22,6 +22,7 @@ class Buf:
         _counter[0] += 1
         self.bid = _counter[0]
         self.name = name
+        self.size = z3.Int('size!%s%d' % (name, self.bid))
 
     def __repr__(self):
         return 'Buf(%s#%d)' % (self.name, self.bid)
@@ -154,7 +155,11 @@ class BufMixin:
             if attr == 'base':
                 return self.as_ref(base)
             if attr == 'size':
-                return fresh('bufsize', 'int')
+                ch = self.as_ref(base).choices
+                r = ch[-1][1].size
+                for (c, b) in reversed(ch[:-1]):
+                    r = z3.If(zb(c), b.size, r)
+                return r
             raise OutOfReach('buffer attribute ' + attr)
         return NotImplemented
 
